@@ -862,3 +862,78 @@ pub(crate) fn abandoned_final_completion<R, A>(resources: R, args: A, res: i32, 
     std::mem::forget(s);
     freed
 }
+
+// =========================================================================================
+// C06/C01  drop.rg — rely/guarantee for OpState::drop: the completion thread may process this operation's FINAL
+//   completion at any moment it can get the operation's lock, i.e. right before any lock acquisition drop makes.
+//   Guarantee: the state is reclaimed exactly once — if the final completion was already processed when drop
+//   decides, drop frees now (nobody else will); it is never left in Dropped with no completion to come.
+// =========================================================================================
+pub(crate) struct RgCtx {
+    pub magic: u64,
+    pub state: *const SState,
+    pub res: i32,
+    pub flags: u32,
+    pub delivered: u32,
+}
+pub(crate) static mut RG: RgCtx = RgCtx { magic: 0x5EED_0006_A10A_0002, state: std::ptr::null(), res: 0, flags: 0, delivered: 0 };
+
+/// Environment step: Completion::process for this operation's final completion (update under the lock; the waker
+/// / destructor part of process is covered by process.* and drop_state obligations).
+fn env_final_completion() {
+    unsafe {
+        let s = &*RG.state;
+        let c = cqe(s.user_data(), RG.res, RG.flags);
+        let mut sh = crate::lock(&data_of(s).shared);
+        if matches!(sh.status, Status::Running { .. }) {
+            let upd = sh.update(&c);
+            std::mem::forget(upd);
+            RG.delivered = 1;
+        }
+    }
+}
+
+fn drop_rg_case(skip: u32) -> bool {
+    let marker: u32 = kani::any();
+    let mut s: SState = State::new(Res { marker, payload: kani::any() }, args(kani::any()));
+    force_single(&s, St::Running, (0, 0), None);
+    let h: u32 = kani::any();
+    let t: u32 = kani::any();
+    kani::assume(ring_inv(h, t, 2));
+    let mut ring = FakeSq::<2>::new(h, t, 0);
+    let subs = subs_of(ring.shared(2, false, false));
+    unsafe {
+        RG.state = &s;
+        RG.res = any_kernel_res();
+        RG.flags = 0; // final: no F_MORE
+        env::E.lock_addr = std::ptr::from_ref(&data_of(&s).shared).addr();
+        env::E.lock_kind = env::LK_CALL;
+        env::E.lock_fn = Some(env_final_completion);
+        env::E.lock_skip = skip;
+    }
+    unsafe { OpState::drop(&mut s, sqref(&subs)) };
+    let fired = unsafe { env::E.lock_fired } == 1;
+    let delivered = unsafe { RG.delivered } == 1;
+    if delivered {
+        // the kernel is done with the operation and its completion has been consumed: only drop can reclaim it
+        assert!(frees() == 1, "final completion already processed: drop reclaims the state itself, exactly once");
+        assert!(unsafe { G.res_drops } == 1 && unsafe { G.last_dropped } == marker);
+    } else {
+        assert!(frees() == 0 && unsafe { G.res_drops } == 0, "still in flight: reclaim is left to the completion handler");
+        assert!(status_of(&s) == St::Dropped);
+    }
+    delivered
+}
+#[kani::proof]
+#[kani::unwind(3)]
+fn drop_rg_first_lock() {
+    let delivered = drop_rg_case(0);
+    kani::cover!(delivered, "completion processed just before drop took the lock");
+}
+#[kani::proof]
+#[kani::unwind(3)]
+fn drop_rg_later_lock() {
+    // interference at a second acquisition of the operation lock, should drop ever make one (check-then-act)
+    let _ = drop_rg_case(1);
+    kani::cover!(true, "end");
+}
